@@ -263,14 +263,25 @@ def build(case, run):
                 hgraph.add_dependency(tasks[i], on=nested)
             if kind in ('s', 'b'):
                 sgraph.add_dependency(tasks[i], on=nested)
-    for idx in order:
-        for (i, j, kind) in all_edges(case):
-            if i != idx:
-                continue
-            if kind in ('h', 'b') and (i, j, 'h') not in inner:
-                hgraph.add_dependency(tasks[i], on=tasks[j])
-            if kind in ('s', 'b'):
-                sgraph.add_dependency(tasks[i], on=tasks[j])
+    back = {tuple(e) for e in case.get('back', [])}
+    presort = bool(case.get('presort'))
+    for late in ((False, True) if presort else (None,)):
+        for idx in order:
+            for (i, j, kind) in all_edges(case):
+                if i != idx or (late is not None and ((i, j, kind) in back) != late):
+                    continue
+                if kind in ('h', 'b') and (i, j, 'h') not in inner:
+                    hgraph.add_dependency(tasks[i], on=tasks[j])
+                if kind in ('s', 'b'):
+                    sgraph.add_dependency(tasks[i], on=tasks[j])
+        if late is False:
+            # the graphs are sorted once while still acyclic, then edited (edges that may
+            # close a cycle are added between existing nodes), then scheduled
+            for graph in (hgraph, sgraph):
+                try:
+                    graph.topological_sort()
+                except Exception:      # pylint: disable=broad-except
+                    pass               # (a graph holding nested graph nodes cannot be sorted)
     return tasks, hgraph, sgraph
 
 
@@ -283,6 +294,10 @@ def shape_labels(case):
         labs.append('backend-reused-after-other-graph')
     if case.get('spurious'):
         labs.append('spurious-wakeups')
+    if case.get('reloaded'):
+        labs.append('initial-env-reloaded')
+    if case.get('presort'):
+        labs.append('sorted-before-last-edits')
     groups = case.get('groups') or ()
     if groups:
         labs.append('group-nodes')
@@ -334,6 +349,12 @@ def prepare(case, envmod):
     for key, status in sorted((case.get('init') or {}).items()):
         idx = int(key)
         env[tasks[idx].name] = initial_entry(tasks[idx].name, status, -10 + 2 * idx)
+    if case.get('reloaded'):
+        # the environment of the earlier run was unpickled (Env.from_file): same path through
+        # __getstate__ / __setstate__ (a privately loaded class cannot be pickled by reference)
+        state = env.__getstate__()
+        env = envmod.Env.__new__(envmod.Env)
+        env.__setstate__(state)
     return run, tasks, hgraph, sgraph, env
 
 
